@@ -454,8 +454,16 @@ def install_writer_externals(interp):
         @stub
         def writerow(interp2, args2, kwargs2):
             if isinstance(stream, Obj) and stream.attrs.get("is_row_buffer"):
-                # the row is formatted into an in-memory buffer and forwarded by the row writer
-                stream.attrs["content"] = RowText(args2[0], terminator)
+                # the row is formatted into an in-memory buffer and forwarded by the row writer; rows formatted without
+                # emptying the buffer in between accumulate
+                formatted = RowText(args2[0], terminator)
+                content = stream.attrs.get("content")
+                if isinstance(content, RowText):
+                    stream.attrs["content"] = MultiRowText([content, formatted])
+                elif isinstance(content, MultiRowText):
+                    stream.attrs["content"] = MultiRowText(content.rows + [formatted])
+                else:
+                    stream.attrs["content"] = formatted
             else:
                 interp2.event("emit", args2[0], terminator)
 
@@ -481,6 +489,9 @@ def install_writer_externals(interp):
         op, left, right = args
         if isinstance(op, _ast.Add) and isinstance(left, RowText) and isinstance(right, str):
             return RowText(left.row, left.terminator + right, left.cells_rewritten)
+        if isinstance(op, _ast.Add) and isinstance(left, MultiRowText) and isinstance(right, str):
+            last = left.rows[-1]
+            return MultiRowText(left.rows[:-1] + [RowText(last.row, last.terminator + right, last.cells_rewritten)])
         if previous_binop is not None:
             return previous_binop(interp_, args, kwargs)
         return NotImplemented
@@ -549,8 +560,30 @@ class RowText(AText):
         self.methods = {"replace": replace}
 
 
+class MultiRowText(AText):
+    """Several formatted rows one after the other (a buffer that was not emptied between rows)."""
+
+    custom_eq = True
+
+    def __init__(self, rows):
+        AText.__init__(self, AText.TEXT, "formatted rows")
+        self.rows = list(rows)
+        text = self
+
+        @stub
+        def replace(interp, args, kwargs):
+            replaced = [interp.call(row.methods["replace"], list(args), dict(kwargs)) for row in text.rows]
+            return MultiRowText(replaced)
+
+        self.methods = {"replace": replace}
+
+
 def _row_text_subscript(interp, args, kwargs):
     text, index = args
+    if isinstance(text, MultiRowText) and isinstance(index, slice) and index.start is None and index.step is None \
+            and isinstance(index.stop, int) and index.stop < 0 and -index.stop <= len(text.rows[-1].terminator):
+        last = text.rows[-1]
+        return MultiRowText(text.rows[:-1] + [RowText(last.row, last.terminator[: index.stop], last.cells_rewritten)])
     if isinstance(text, RowText) and isinstance(index, slice) and index.start is None and index.step is None \
             and isinstance(index.stop, int) and index.stop < 0 and -index.stop <= len(text.terminator):
         return RowText(text.row, text.terminator[: index.stop], text.cells_rewritten)
@@ -578,6 +611,68 @@ class _Padding:
 
 
 LINE_DELIMITERS = ["any", "\n", "\r", "\r\n", None]
+
+
+def write_rows_agreement_table(ctx, rule):
+    """
+    Sibling agreement inside the row writers: ``write_rows(rows)`` puts on the target stream exactly what ``write_row`` puts
+    there row by row (same cells, same terminators, nothing rewritten inside cells), and moves the location as far.
+    """
+    from ..absint import ClassRef
+    from ..tablekit import decide as _decide
+
+    model = ctx.model
+
+    def emitted(interp):
+        result = []
+        for event in interp.events:
+            if event[0] == "write":
+                text = event[1]
+                parts = text.rows if isinstance(text, MultiRowText) else [text]
+                for part in parts:
+                    if isinstance(part, RowText):
+                        result.append(("row %s" % show(part.row), part.terminator, "cells rewritten" if part.cells_rewritten else "cells intact"))
+                    else:
+                        result.append(("text", show(part) if not isinstance(part, str) else part, ""))
+            elif event[0] == "emit":
+                result.append(("row %s" % show(event[1]), event[2], "cells intact"))
+        return result
+
+    def run(ch, writer_class, line_delimiter, n_rows, bulk):
+        interp = Interp(model, ch)
+        install_writer_externals(interp)
+        world = World(model, interp, ch)
+
+        @stub
+        def stream_write(interp_, args, kwargs):
+            interp_.event("write", args[0], None)
+
+        target = Obj("io.StringIO", {"name": "<target>", "write": stream_write, "close": stub(lambda i, a, k: None)}, label="target")
+        data_format = world.data_format("delimited", _line_delimiter=line_delimiter)
+        writer = interp.instantiate(ClassRef(model.cls(writer_class)), [target, data_format], {})
+        rows = [world.row(index, 2) for index in range(n_rows)]
+        try:
+            if bulk:
+                interp.call(interp.getattr(writer, "write_rows"), [rows], {})
+            else:
+                for row in rows:
+                    interp.call(interp.getattr(writer, "write_row"), [row], {})
+            outcome = "written"
+        except AbsRaise as raised:
+            outcome = "raise " + exc_name(raised.value)
+        location = writer.attrs.get("_location")
+        line = location.attrs.get("_line") if isinstance(location, Obj) else None
+        return (outcome, emitted(interp), line)
+
+    def cell(ch):
+        line_delimiter = ch.choose("line delimiter", ["any", "\n", "\r", "\r\n"])
+        n_rows = ch.choose("rows", [0, 1, 2, 3])
+        one_by_one = run(ch, "cutplace.rowio.DelimitedRowWriter", line_delimiter, n_rows, False)
+        at_once = run(ch, "cutplace.rowio.DelimitedRowWriter", line_delimiter, n_rows, True)
+        return ("line delimiter %r, %d row(s)" % (line_delimiter, n_rows), at_once, one_by_one)
+
+    ctx.res.minimum(rule, 1)
+    return _decide(ctx, rule, "DelimitedRowWriter.write_rows agrees with write_row", "cutplace.rowio.AbstractRowWriter.write_rows", cell, min_cells=16)
 
 
 def writer_run(model, ch, format_name="delimited"):
@@ -786,7 +881,7 @@ def writer_table(ctx, rule, aspects, format_name="delimited"):
 
 # =============================================================================== histories on one CID (C08)
 HISTORY_OPS = ["read+close", "read-abandon", "read-noclose", "reader-close-only", "write+close", "write-noclose", "writer-close-only",
-               "rows()", "validate()", "validate-limit-0", "validate_rows+close", "two-readers-created-then-read"]
+               "rows()", "validate()", "validate-limit-0", "read-limit-0+close", "validate_rows+close", "two-readers-created-then-read"]
 
 
 def history_run(model, ch, length):
@@ -832,7 +927,7 @@ def history_run(model, ch, length):
                         pass
                     interp.call(interp.getattr(reader, "close"), [], {})
             elif op.startswith("read") or op == "reader-close-only" or op == "validate_rows+close":
-                reader = _construct(interp, READER, [cid, stream])
+                reader = _construct(interp, READER, [cid, stream], {"validate_until": 0} if op == "read-limit-0+close" else {})
                 if op == "reader-close-only":
                     interp.call(interp.getattr(reader, "close"), [], {})
                 elif op == "validate_rows+close":
@@ -845,7 +940,7 @@ def history_run(model, ch, length):
                         count += 1
                         if op == "read-abandon":
                             break
-                    if op == "read+close":
+                    if op in ("read+close", "read-limit-0+close"):
                         interp.call(interp.getattr(reader, "close"), [], {})
             elif op.startswith("write"):
                 target = Obj("io.StringIO", {"name": "<target>", "write": stub(lambda i, a, k: None), "close": stub(lambda i, a, k: None)},
